@@ -132,8 +132,9 @@ def onData (n : FNode) (d : Data) : FNode × List SW :=
       else if m.height ≤ n.store.height then (n, [])
       else
         let n1 := { n with datCache := (m.height, d) :: n.datCache }
-        let (n2, ws) := trySync (n1.hdrCache.length + 1) n1 []
-        if n2.alive then ({ n2 with seenD := dc :: n2.seenD }, ws) else (n2, ws)
+        -- the commitment is marked as seen only when the block is applied (`applyBlock`), not here: an unauthenticated
+        -- item that copies the transactions of a block must not make the genuine data count as already seen
+        trySync (n1.hdrCache.length + 1) n1 []
 
 /-- genesis block a node without signer writes at start-up; read back from the store its signer is empty
 (`FromProto` keeps a signer only when a key is present) -/
